@@ -172,20 +172,39 @@ def site_class(site):
             "classmethod": "classmethod", "staticmethod": "staticmethod", "module": "module"}[site]
 
 
+def failure_kind(obj):
+    """How the result fails: 'exc:<Class>' / 'syntax' (the module no longer runs to its end) or 'output' (it runs,
+    but prints something else). Taken from the observed failure, or from the recorded expectation of a finding."""
+    ob = obj.get("observed")
+    if not ob:
+        return obj.get("expected_failure", "?")
+    if "crash" in ob:
+        return "crash"
+    final = ob["after"][1]
+    if final[0] == "ok":
+        return "output"
+    return "syntax" if final[0] == "syntax" else "exc:" + final[1]
+
+
 def structural_signature(obj):
-    """Input-only class of a case of this stream (what is extracted, with which options, from which kind of
-    site). The four named classes are recorded defects of rope; everything else is `similar:other`."""
+    """Class of a case of this stream: the exact input shape (what is extracted, with which options, from which kind
+    of site) AND the way the result fails. Only the combinations recorded as open defects of rope have a name;
+    everything else (also a recorded shape that fails differently) is `similar:other`."""
     opts = obj["opts"]
     frm = site_class(obj["site"])
     glob = bool(opts.get("global_"))
-    if obj["extract"] == "variable" and glob and frm != "module":
-        return "similar:variable-global-from-local-scope"
-    if frm == "module":
-        return "similar:module-level-matches-inner-scopes"
-    if obj["extract"] == "method" and glob and frm == "nested":
-        return "similar:global-from-nested-closure"
-    if obj["extract"] == "method" and glob and frm == "classmethod":
-        return "similar:global-from-classmethod-keeps-decorator"
+    fk = failure_kind(obj)
+    if obj["extract"] == "variable" and glob and frm != "module" and fk == "exc:NameError":
+        return "similar:variable-global-from-local-scope:exc:NameError"
+    if frm == "module" and not glob and not opts.get("kind"):
+        others = {site_class(x) for x in obj["spec"]["sites"] if x != obj["site"]}
+        if others - {"module"}:
+            if obj["extract"] == "method" and fk == "output":
+                return "similar:module-level-matches-inner-scopes:method:output"
+            if obj["extract"] == "variable" and fk in ("exc:NameError", "output"):
+                return "similar:module-level-matches-inner-scopes:variable:NameError-or-output"
+    if obj["extract"] == "method" and glob and frm == "nested" and fk == "output":
+        return "similar:global-from-nested-closure:output"
     return "similar:other"
 
 
@@ -194,18 +213,26 @@ KNOWN_SIMILAR = [
      "title": "extract variable with global_=True inside a function defines a module-level variable from the "
               "function's local names (NameError when the module is imported); it should be refused",
      "spec": {"stmt": False, "piece": "p * 2 + q", "sites": ["plain", "nested"], "variant": 0},
-     "site_index": 0, "extract": "variable", "opts": {"similar": True, "global_": True}},
+     "site_index": 0, "extract": "variable", "opts": {"similar": True, "global_": True},
+     "expected_failure": "exc:NameError"},
     {"id": "C03-module-level-similar-inner-scopes",
      "title": "extract at module level with similar=True also replaces textually similar code inside functions, "
               "where the same names are parameters/locals: the new function/variable reads the globals instead",
      "spec": {"stmt": False, "piece": "p * 2 + q", "sites": ["plain", "module"], "variant": 0},
-     "site_index": 1, "extract": "method", "opts": {"similar": True}},
+     "site_index": 1, "extract": "method", "opts": {"similar": True}, "expected_failure": "output"},
+    {"id": "C03-module-level-similar-inner-scopes-variable",
+     "title": "extract variable at module level with similar=True also replaces similar code inside functions and "
+              "puts the definition in front of the first of them, before the module-level names it reads are bound",
+     "spec": {"stmt": False, "piece": "p * 2 + q", "sites": ["plain", "module"], "variant": 0},
+     "site_index": 1, "extract": "variable", "opts": {"similar": True}, "expected_failure": "exc:NameError"},
     {"id": "C03-global-from-nested-closure",
      "title": "extract method with global_=True from a nested function does not pass the names that the nested "
               "function reads from its enclosing function: the new global function reads module globals instead",
      "spec": {"stmt": False, "piece": "p * 2 + q", "sites": ["plain", "nested"], "variant": 0},
-     "site_index": 1, "extract": "method", "opts": {"similar": True, "global_": True}},
-    {"id": "C03-global-from-classmethod-decorator",
+     "site_index": 1, "extract": "method", "opts": {"similar": True, "global_": True}, "expected_failure": "output"},
+    {"id": "C03-global-from-classmethod-decorator", "corpus_name": "global-from-classmethod-decorator",
+     "fixed": ("e95d065", "ExtractMethod(global_=True) from a classmethod kept @classmethod and `cls` on the new "
+                          "module-level function (TypeError when called)"),
      "title": "extract method with global_=True from a classmethod keeps @classmethod (and cls) on the new "
               "module-level function; calling it raises TypeError",
      "spec": {"stmt": False, "piece": "p * 2 + q", "sites": ["method1", "classmethod"], "variant": 0},
@@ -216,7 +243,8 @@ KNOWN_SIMILAR = [
 def known_obj(k):
     source, occ = build(k["spec"])
     obj = {"kind": "similar", "spec": k["spec"], "site": occ[k["site_index"]][0], "site_index": k["site_index"],
-           "extract": k["extract"], "opts": k["opts"], "source": source}
+           "extract": k["extract"], "opts": k["opts"], "source": source,
+           "expected_failure": k.get("expected_failure", "?")}
     obj["class"] = structural_signature(obj)
     return obj
 
